@@ -34,6 +34,14 @@ def decl_specs(tier):
         specs.append({'names': [c, 'i3'], 'wrapper': 'a', 'opts': {'generate_for_pack': False, 'generate_for_unpack': False}})
     for c in ('i1', 'i3', 'dn', 'm0', 'b35', 'sn', 'su', 'sr', 'o1', 'r1', 'rs', 'sdn'):
         specs.append({'names': [c], 'wrapper': 'd'})
+    # a position given to a field BEFORE it is wrapped by .when() / .repeated() (the library may honour it or drop it - either way the
+    # parse must not depend on where the packet starts when the position is relative to the packet)
+    from mc.ir import PKT, I, D, S, O, F, C, pos
+    for tag, inner in (('aligned-innermost data', pos(D(C(2)), 'aligned', C(4), ref='innermost-pkt')), ('aligned-innermost int', pos(I(1), 'aligned', C(2), ref='innermost-pkt')),
+                       ('at int', pos(I(1), 'at', C(3))), ('shift data', pos(D(C(1)), 'shift', C(1)))):
+        specs.append({'P': PKT('K', [('t', I(1)), ('o', O(inner, F('t'))), ('z', I(1))]), 'tag': 'inner position, optional: ' + tag})
+        specs.append({'P': PKT('K', [('n', I(1)), ('l', S(inner, F('n'))), ('z', I(1))]), 'tag': 'inner position, repeated: ' + tag})
+        specs.append({'P': PKT('W', [('pre', I(1)), ('body', ir.R(PKT('K', [('t', I(1)), ('o', O(inner, F('t'))), ('z', I(1))])))]), 'tag': 'inner position, nested optional: ' + tag})
     for sp in alphabet.boundary_specs() + alphabet.structure_specs():
         # the same by-design exclusions (an absolute alignment of the holder makes the parse depend on where it starts)
         P = sp['P'] if 'P' in sp else alphabet.make_decl(sp['names'], sp.get('opts'), sp.get('wrapper', 'a'), wopts=sp.get('wopts'))
@@ -76,8 +84,20 @@ def check_one(dc, st, raw, r, maxaff):
         e = base[2]
         if not isinstance(e, int) or e < 0 or e > len(raw):
             return
-        if r[0] != 'ok':
+        if r[0] != 'ok' or ir.extract(ea.impl_unpack(dc.K, raw)[1], dc.P, dc.pkts) != r[1].pv:
+            # the reference does not vouch for this parse, so the region is unknown - but whatever was parsed, the SAME bytes parsed
+            # behind a prefix (at the start offset len(prefix)) must give the same values, every offset shifted by the prefix
             st.inc('disagree')
+            if not backwards and 'abs' not in dc.feats:
+                for u in affixes(syms, 1)[1:]:
+                    st.inc('transitions')
+                    got = observe(dc, u + raw, len(u))
+                    want = ('ok', base[1], len(u) + e)
+                    if got != want:
+                        st.violate('unpack depends on prefix bytes',
+                                   '%s.unpack(%r, %d) -> %r but %s.unpack(%r) -> %r | %s' % (dc.P['name'], u + raw, len(u), got, dc.P['name'], raw, base, srcline),
+                                   dc.case(raw=raw), dc.snippet('print(%s.unpack(%r, %d))\nprint(%s.unpack(%r))' % (dc.P['name'], u + raw, len(u), dc.P['name'], raw)))
+                        return
             return
         hw = max(e, r[1].high)          # positioned fields may have read beyond the final cursor
         region = raw[:hw]
